@@ -259,6 +259,30 @@ def _run_one(args):
     return run_fn(ob, work, pid)
 
 
+# --------------------------------------------------------------------------------------------- tool-soundness lint
+KNOWN_WRONG_MODELS = {}      # str.expandtabs was one (column-unaware model); lib/plug.py now replaces that model by realisation
+VALIDATED_STR_METHODS = {"split", "lstrip", "rstrip", "strip", "startswith", "endswith", "lower", "upper", "replace", "join",
+                         "splitlines", "format", "append", "extend", "remove", "pop", "insert", "get", "items", "keys", "values",
+                         "copy", "deepcopy", "index", "count", "encode", "decode", "write", "read", "close"}
+
+
+def lint_models():
+    """The real code may only rely on str methods whose CrossHair model was differentially probed against CPython
+    (DESIGN.md 11.6). A call of a method with a KNOWN wrong model makes every 'Confirmed' of the symbolic-execution engine
+    unreliable for code that reaches it: such verdicts are downgraded to INCONCLUSIVE."""
+    import glob
+    bad = []
+    for f in sorted(glob.glob(os.path.join(REPO, "src", "cminx", "*.py"))):
+        try:
+            tree = ast.parse(open(f, encoding="utf-8").read())
+        except (OSError, SyntaxError):
+            continue
+        for n in ast.walk(tree):
+            if isinstance(n, ast.Call) and isinstance(n.func, ast.Attribute) and n.func.attr in KNOWN_WRONG_MODELS:
+                bad.append("%s:%d .%s(): %s" % (os.path.relpath(f, REPO), n.lineno, n.func.attr, KNOWN_WRONG_MODELS[n.func.attr]))
+    return bad
+
+
 # --------------------------------------------------------------------------------------------- known findings
 def load_findings(pid):
     p = os.path.join(ROOT, "known_findings.json")
@@ -284,6 +308,12 @@ def main(pid, tier, obligations, assumptions, explanation, level="other", truste
             results.append((futs[f], f.result()))
     order = {id(o): i for i, o in enumerate(obligations)}
     results.sort(key=lambda x: order[id(x[0])])
+    unsound = lint_models()
+    if unsound:
+        for ob, r in results:
+            if isinstance(ob, CH) and r.verdict == HOLDS:
+                r.verdict = INCONCLUSIVE
+                r.detail = "CrossHair confirmed, but the verdict is not trusted: " + unsound[0]
     findings = load_findings(pid)
     known = {f["id"]: f for f in findings if f.get("status") == "known"}
     nviol = 0; nerr = 0; ninc = 0; nheld = 0
